@@ -149,9 +149,9 @@ static void run_C20(const vcase *c, vres *r)
 }
 
 static void s20(const int *d, vcase *c) { c->n = c->m = 6; c->aux = d[0]; c->pat = dev1_pattern(6, base_pattern(6, d[0]), d[1]); c->vals = (int[]){ 2, 1 }[d[2]]; c->type = d[3]; set_tune(c, (int[]){ 0, 3, 9 }[d[4]]); c->k = d[5]; }
-static void s20q(const int *d, vcase *c) { int e[6] = { d[0], d[1], d[2], d[3] ? TZ : TD, d[4], 6 }; s20(e, c); }
+static void s20q(const int *d, vcase *c) { int e[6] = { d[0], d[1], d[2], d[3], d[4], 6 }; s20(e, c); }
 static void s20t(const int *d, vcase *c) { int e[6] = { d[0], d[1], d[2], d[3], d[4], 7 }; s20(e, c); }
-static const family F20Q[] = { { "BASE(6) x dev{0,1,2} x vals2 x {d,z} x tuning{default,(2,1,2..),relaxed}: all valid words up to depth 6 over 14 events on 2 handles x 2 matrices", 5, { 9, 3, 2, 2, 3 }, s20q } };
+static const family F20Q[] = { { "BASE(6) x dev{0,1} x vals2 x type4 x tuning{default,(2,1,2..),relaxed}: all valid words up to depth 6 over 14 events on 2 handles x 2 matrices", 5, { 9, 2, 2, 4, 3 }, s20q } };
 static const family F20T[] = { { "BASE(6) x dev{0..6} x vals2 x type4 x tuning3: all valid words up to depth 7", 5, { 9, 7, 2, 4, 3 }, s20t } };
 static long sz_20(int tier) { return tier ? fam_total(F20T, 1) : fam_total(F20Q, 1); }
 static void dec_20(int tier, long idx, vcase *c) { if (tier) fam_decode(F20T, 1, idx, c); else fam_decode(F20Q, 1, idx, c); }
